@@ -335,7 +335,7 @@ func refInit(m protoreflect.Message) bool {
 func runUtf8(c *C) {
 	c.R.Rule = "messages over about 40 root types x {generated, dynamicpb} with invalid UTF-8 (lone continuation, overlong, surrogate, truncated, 0xff, > U+10FFFF) planted with probability 1/4 in every string position (singular, repeated element, map key, map value, oneof member, extension). Marshal must fail iff an *enforced* string position holds invalid UTF-8 (model: badUtf8); wire data carrying it must be refused exactly there and passed through unchanged elsewhere (bytes fields, non-enforced strings). Non-trivial = message contains at least one string; distinct by snapshot."
 	rs := roots(c)
-	per := c.N(60, 3000)
+	per := c.N(60, 600)
 	editionsExtCase(c)
 	for _, r := range rs {
 		r.Flat.Send(c)
